@@ -175,7 +175,7 @@ fn expr_uses_json_stringify(expr: &Expr) -> bool {
         Expr::Closure(_params, body) => expr_uses_json_stringify(&body.node),
         Expr::FString(parts) => parts.iter().any(|p| match p {
             FStringPart::Literal(_) => false,
-            FStringPart::Expr(e) => expr_uses_json_stringify(&e.node),
+            FStringPart::Expr(e) | FStringPart::DebugExpr(e) => expr_uses_json_stringify(&e.node),
         }),
         Expr::Yield(Some(e)) => expr_uses_json_stringify(&e.node),
         _ => false,
@@ -305,7 +305,7 @@ fn expr_uses_async(expr: &Expr) -> bool {
             .any(|(k, v)| expr_uses_async(&k.node) || expr_uses_async(&v.node)),
         Expr::FString(parts) => parts
             .iter()
-            .any(|part| matches!(part, FStringPart::Expr(e) if expr_uses_async(&e.node))),
+            .any(|part| matches!(part, FStringPart::Expr(e) | FStringPart::DebugExpr(e) if expr_uses_async(&e.node))),
         Expr::ListComp(comp) => {
             expr_uses_async(&comp.expr.node)
                 || expr_uses_async(&comp.iter.node)
